@@ -1,0 +1,14 @@
+//go:build verif
+
+// Contracts for package preparedmessages, read by /verif/govc (comment-only: no declarations, no effect on any build).
+
+package preparedmessages
+
+//@ func ExtractPreparedMessages
+//@   props C09 C11
+//@   requires SumMW(committeeMembers, len(committeeMembers)) < 2^64
+//@   ensures [proposal-of-that-view] result != nil ==> result.PreprepareMessage != nil && ppStored[latestPreparedView]
+//@     | && result.PreprepareMessage.content.SignedHeader().View() == latestPreparedView && result.PreprepareMessage.content.SignedHeader().BlockHeight() == blockHeight
+//@   ensures [prepares-for-the-proposal-hash] result != nil ==> result.PrepareMessages == PMsgs(storage, pver, blockHeight, latestPreparedView, result.PreprepareMessage.content.SignedHeader().BlockHash())
+//@   ensures [prepared-quorum] result != nil ==> len(senderIds) == len(PIds(storage, pver, blockHeight, latestPreparedView, result.PreprepareMessage.content.SignedHeader().BlockHash())) + 1
+//@     | && SW(senderIds, committeeMembers, len(committeeMembers)) >= Qz(SumMW(committeeMembers, len(committeeMembers)))
